@@ -38,7 +38,7 @@ TIERS = {
     "C13": {"quick": (3000, 240), "thorough": (160000, 3000)},
     "C15": {"quick": (2000, 240), "thorough": (100000, 3000)},
     "C16": {"quick": (3000, 240), "thorough": (160000, 3000)},
-    "C14": {"quick": (1600, 300), "thorough": (100000, 3600)},
+    "C14": {"quick": (1000, 300), "thorough": (100000, 3600)},
 }
 
 
